@@ -76,9 +76,13 @@ ASSUMPTIONS = [
     "a case that does not finish within 5 s is reported as a hang (the reference "
     "side is bounded by construction)",
 ]
-HEALTH = {"mul:prefix-cancellation": 0.004, "euclid:nonpositive": 0.05,
-          "fft:composite": 0.005, "map:partial-change": 0.004,
-          "divmod:exact": 0.004, "euclid-poly:in-domain": 0.004}
+HEALTH = {"mul:prefix-cancellation": 0.008, "mul:cancel": 0.008,
+          "pow:prefix-cancellation": 0.001, "euclid:nonpositive": 0.04,
+          "euclid:big": 0.01, "fft:composite": 0.0015, "fft:sym": 0.001,
+          "map:partial-change": 0.01, "map:first-term-unchanged": 0.004,
+          "subst:coefficient-replaced": 0.005, "divmod:exact": 0.02,
+          "euclid-poly:in-domain": 0.01, "eval:exponent-gap": 0.02,
+          "eval:symbolic": 0.004, "quotient:big": 0.008, "ipow:n>64": 0.004}
 
 TIMEOUT_IS_FAIL = True
 CASE_TIMEOUT_S = 5
@@ -506,7 +510,7 @@ def _judge_poly(res, op, got, want, invariant=True, what=""):
     elif invariant and not data_is_normal(got):
         res.fail(f"{op}:data-not-normal", f"{what} -> data {got.data!r} (unsorted, "
                  "repeated exponent or zero coefficient)")
-    if ok and bool(got) != bool(want):
+    if ok and invariant and bool(got) != bool(want):
         res.fail("zero-polynomial-truthiness",
                  f"bool({got!r}) is {bool(got)} for {what}")
     return ok
@@ -778,10 +782,21 @@ def is_symbolic(c):
     return not _is_number_spec(c)
 
 
-def env_of(spec):
+def env_of(spec, ints_only=False):
+    """Environment of a case.  Cases with symbolic coefficients take integer
+    values only: Fractions are not pymbolic constants, so a partially evaluated
+    result (see eval:coefficient-not-evaluated) could not even be formed."""
     env = spec.get("env", {})
     _need(isinstance(env, dict), "env")
-    return {k: R.num(v) for k, v in env.items()}
+    env = {k: R.num(v) for k, v in env.items()}
+    if ints_only:
+        _need(all(_is_int(v) for v in env.values()),
+              "symbolic coefficients need an integer environment")
+    return env
+
+
+def any_symbolic(*term_lists):
+    return any(is_symbolic(c) for ts in term_lists for _, c in ts)
 
 
 def sym_poly(ts, base=X):
@@ -813,11 +828,11 @@ def show_sym(ts):
 def check_poly_eval(spec):
     res = Result()
     ts = symterms(spec.get("p"))
-    env = env_of(spec)
+    sym = any_symbolic(ts)
+    env = env_of(spec, ints_only=sym)
     _need("x" in env, "env binds x")
     p = sym_poly(ts)
     want = sym_value(ts, env, env["x"])
-    sym = any(is_symbolic(c) for _, c in ts)
     exps = [0] + [e for e, _ in ts]
     gap = any(b - a > 1 for a, b in zip(exps, exps[1:]))
     res.label("eval:symbolic" if sym else "eval:numeric")
@@ -851,7 +866,7 @@ def check_poly_eval(spec):
 def check_asprim(spec):
     res = Result()
     ts = symterms(spec.get("p"))
-    env = env_of(spec)
+    env = env_of(spec, ints_only=any_symbolic(ts))
     _need("x" in env, "env binds x")
     p = sym_poly(ts)
     want = sym_value(ts, env, env["x"])
@@ -984,7 +999,7 @@ def map_model(spec):
 def check_poly_map(spec):
     res = Result()
     ts, rule, rename, new_ts, changed, base_name = map_model(spec)
-    env = env_of(spec)
+    env = env_of(spec, ints_only=any_symbolic(ts, new_ts))
     _need(base_name in env, "env binds the base")
     p = sym_poly(ts)
     if base_name != "x":
@@ -1028,6 +1043,14 @@ def subst_spec(c, subst, top=True):
     return [c[0], [subst_spec(ch, subst, top=False) for ch in c[1]]]
 
 
+def names_in(c):
+    if _is_number_spec(c) or c[0] == "Const":
+        return set()
+    if c[0] == "Var":
+        return {c[1]}
+    return set().union(*(names_in(ch) for ch in c[1]))
+
+
 def subst_model(spec):
     ts = symterms(spec.get("p"))
     subst = spec.get("subst", {})
@@ -1037,14 +1060,16 @@ def subst_model(spec):
             _need(not _is_number_spec(v), "subst value")
             _coef_validate(v, top=False)
     new_ts = [(e, subst_spec(c, subst)) for e, c in ts]
-    changed = [new != old for (_, new), (_, old) in zip(new_ts, ts)]
+    # "changed" = rebuilt by the mapper: the coefficient mentions a substituted
+    # name (x -> x also yields a new, merely equal object)
+    changed = [bool(names_in(old) & set(subst)) for _, old in ts]
     return ts, subst, new_ts, changed
 
 
 def check_poly_subst(spec):
     res = Result()
     ts, subst, new_ts, changed = subst_model(spec)
-    env = env_of(spec)
+    env = env_of(spec, ints_only=any_symbolic(ts, new_ts) or "x" in subst)
     p = sym_poly(ts)
     base_spec = subst_spec(["Var", "x"], subst)
     new_base = coef_build(base_spec)
@@ -1066,14 +1091,13 @@ def check_poly_subst(spec):
     except Exception as e:
         return res.fail(f"subst:raises:{_exc(e)}", f"{show_sym(ts)} with {subst}: {e!r}")
     _judge_mapped(res, "subst", got, ts, new_ts, new_base, base_value, env, p)
-    if res.ok:
-        try:
-            got2 = pymbolic.substitute(p, live)
-            res.compared()
-            if not (got2 == got):
-                res.fail("subst:substitute-disagrees", f"{got2!r} vs {got!r}")
-        except Exception as e:
-            res.fail(f"subst:substitute-raises:{_exc(e)}", repr(e))
+    # the default entry point (memoizing mapper: equal sub-expressions come back
+    # as one shared object, so "unchanged" operands need not be identical)
+    try:
+        got2 = pymbolic.substitute(p, live)
+    except Exception as e:
+        return res.fail(f"substitute:raises:{_exc(e)}", f"{show_sym(ts)}: {e!r}")
+    _judge_mapped(res, "substitute", got2, ts, new_ts, new_base, base_value, env, p)
     res.sample = {"polynomial": show_sym(ts), "substitution": subst,
                   "expected": show_sym(new_ts)}
     return res
@@ -1160,6 +1184,11 @@ def _k_f04(sub, spec, fail):
     if sub == "poly-subst" and fail.kind == "subst:terms-lost":
         _, subst, _, changed = subst_model(spec)
         return "x" not in subst and any(changed)
+    if sub == "poly-subst" and fail.kind == "substitute:terms-lost":
+        # memoizing mapper: a coefficient is also "changed" (rebuilt around a
+        # shared equal operand) when a variable occurs in it or before it twice
+        _, subst, _, changed = subst_model(spec)
+        return "x" not in subst
     return False
 
 
